@@ -1,7 +1,7 @@
 #!/usr/bin/env bash
 # Dev tool: confirm one sub-agent seed and record it under /verif/seeded/<id>/ with the checks that catch it.
-#   tools/process_seed.sh C04 1
-P="$1"; N="$2"; WT=/tmp/wt/$P; ID="${P}-$N"; OUT=/verif/seeded/$ID
+#   tools/process_seed.sh C04 1 [/tmp/wt2 r2]
+P="$1"; N="$2"; BASE="${3:-/tmp/wt}"; TAG="${4:-}"; WT=$BASE/$P; ID="${P}-${TAG:+$TAG-}$N"; OUT=/verif/seeded/$ID
 [ -f "$WT/out/patch$N.diff" ] || { echo "$ID: no patch"; exit 0; }
 V=$(/verif/tools/verify_seed.sh "$WT" "$N" 2>&1)
 echo "$V" | sed "s/^/$ID: /"
